@@ -31,6 +31,9 @@ def plan(tier):
     p.sims.append((tm.Cfg('sim-n3p122', [1, 2, 2], [1], max_round=2, max_height=2, nbyz=1, budget=-1, own_first=False,
                           useful_only=False), n, d))
     # validator-set change between heights 1 and 2 (power update of an honest validator; partial synchrony so that heights finish)
+    # total voting power divisible by 3: exactly two thirds (Byzantine 1 + heaviest 3 = 4 of 6) decides nothing
+    p.sims.append((tm.Cfg('sim-n3p123', [1, 2, 3], [1], max_round=2, max_height=2, nbyz=1, budget=-1, own_first=False,
+                          useful_only=True), n, 100))
     p.sims.append((tm.Cfg('sim-n4-power-update', [1, 1, 1, 1], [4], max_round=2, max_height=2, nbyz=1, budget=4, own_first=False,
                           useful_only=True, sync=True, next_power={2: [2, 1, 1, 1]}), n, d + 90))
     # the locking discipline is what Agreement rests on: the directed lock / unlock / relock / stale-polka schedules
